@@ -31,6 +31,10 @@ class C09Plan(Plan):
             base = {"n_steps": (25, 60), "n_nodes": (10, 40)}
         return gen.gen_scenario(rng, base)
 
+    def directed(self):
+        from . import directed
+        return directed.C09
+
     def nontrivial(self, run):
         p = run.stats["probe"]
         return (p["stale-other-point"] + p["half-written"] + p["foreign-cached"] + p["switched-late"]
